@@ -19,6 +19,10 @@ package node
 //@ ghost var $pend set[string]
 //@ ghost var $retired set[string]
 //@ ghost var $handledNext uint64
+//   $offsetSaves = SaveOffset calls so far; $fetched / $savesAtFetch = size of the last fetched batch and the counter at that moment
+//@ ghost var $offsetSaves int
+//@ ghost var $fetched int
+//@ ghost var $savesAtFetch int
 //   $dos = successful FSMInstance.Do calls so far, $savedAtDo = value of $dos when the round was last saved
 //@ ghost var $dos int
 //@ ghost var $savedAtDo int
@@ -248,6 +252,8 @@ package node
 //@   loop 0 invariant forall j int :: 0 <= j && j <= $i ==> operation.ResultMsgs[j].SenderAddr == s.userName && content(operation.ResultMsgs[j].Signature) == edSign(keyOf(s.userName), content(operation.ResultMsgs[j].Data))
 //@   loop 0 invariant forall j int :: 0 <= j && j <= $i ==> operation.ResultMsgs[j].Data == old(operation.ResultMsgs[j].Data) && operation.ResultMsgs[j].Event == old(operation.ResultMsgs[j].Event) && operation.ResultMsgs[j].DkgRoundID == old(operation.ResultMsgs[j].DkgRoundID) && operation.ResultMsgs[j].RecipientAddr == old(operation.ResultMsgs[j].RecipientAddr) && operation.ResultMsgs[j].ID == old(operation.ResultMsgs[j].ID)
 //@   loop 0 invariant forall j int :: $i < j && j < len(operation.ResultMsgs) ==> operation.ResultMsgs[j] == old(operation.ResultMsgs[j])
+// the result is on the board before the operation is retired: a crash in between leaves it answerable, never lost
+//@   assert@call DeleteOperation[C13.retire.after,C15.retire.after] operation.Event == "operation_processed_successfully" || $sends == old($sends) + 1
 //@   ensures[C15.issued] $sends != old($sends) ==> $stored != nil && ($stored.ID in $pend) && $stored.ID == operation.ID && $stored.Type == operation.Type && content($stored.Payload) == content(operation.Payload) && operation.Event != ""
 //@   ensures[C15.once] $sends <= old($sends) + 1
 //@   ensures[C15.messages] $sends != old($sends) ==> $lastSent == operation.ResultMsgs && (forall j int :: 0 <= j && j < len(operation.ResultMsgs) ==> operation.ResultMsgs[j].SenderAddr == s.userName && content(operation.ResultMsgs[j].Signature) == edSign(keyOf(s.userName), content(operation.ResultMsgs[j].Data)) && operation.ResultMsgs[j].Data == old(operation.ResultMsgs[j].Data) && operation.ResultMsgs[j].Event == old(operation.ResultMsgs[j].Event) && operation.ResultMsgs[j].DkgRoundID == old(operation.ResultMsgs[j].DkgRoundID) && operation.ResultMsgs[j].RecipientAddr == old(operation.ResultMsgs[j].RecipientAddr))
@@ -259,17 +265,24 @@ package node
 //@ func (github.com/lidofinance/dc4bc/client/modules/state.State).SaveOffset
 //@   assumed
 //@   pure
+//@   epilogue $offsetSaves = old($offsetSaves) + 1
 //@ func (github.com/lidofinance/dc4bc/client/modules/state.State).LoadOffset
 //@   assumed
 //@   pure
 //@ func (github.com/lidofinance/dc4bc/storage.Storage).GetMessages
 //@   assumed
 //@   pure
+//@   epilogue $fetched = ite(result1 == nil, len(result0), 0)
+//@   epilogue $savesAtFetch = $offsetSaves
 //@ func (*BaseNodeService).Poll
 //@   nosafety
 //@   requires s != nil
 //@   modifies *
-//@   modifies $mayWrite, $initEvent, $vSender, $vData, $vSig, $vRound, $fx, $sends, $lastSent, $stored, $pend, $retired, $handledNext, $bufc, $dos, $savedAtDo
+//@   modifies $mayWrite, $initEvent, $vSender, $vData, $vSig, $vRound, $fx, $sends, $lastSent, $stored, $pend, $retired, $handledNext, $bufc, $dos, $savedAtDo, $offsetSaves, $fetched, $savesAtFetch
+//@   prologue $fetched = 0
+//@   prologue $savesAtFetch = $offsetSaves
+//@   loop 0 invariant[C13.offset.every] $offsetSaves == $savesAtFetch + $fetched
+//@   loop 1 invariant[C13.offset.every] $offsetSaves == $savesAtFetch + $i + 1 && len($range) == $fetched
 //@   assert@call SaveOffset[C13.offset] arg0 == message.Offset + 1 && ($handledNext == arg0 || !(message.RecipientAddr == "" || message.RecipientAddr == s.userName))
 
 // reconstruction works on the same common expansion and hands each message's payload to the BLS library unchanged (C03)
